@@ -17,7 +17,7 @@ RULE = ("Generated constrained problems: ball, half-space, thin band, annulus an
         "the constraint removed >= 1 candidate in each of the three stages (initial design, search, poll), or an x0-rejection "
         "case.")
 ASSUMPTIONS = [
-    "constraint functions are vectorised and return a 1-D array (as in the docstring example)",
+    "constraint functions are vectorised and return one value per row, as a 1-D array (the docstring example) or as an (N, 1) column (the validation message)",
     "|c| <= 1e-9 at x0 or at the snapped x0 is treated as ambiguous (either outcome accepted)",
 ]
 
@@ -30,6 +30,12 @@ PROFILE = scenario.profile(maxD=3, p_cons=1.0, extra_budget=(5, 70), max_iter_ch
                            # 'gridhalf': only mesh nodes beyond a threshold are infeasible (feasibility before vs after snapping differs)
                            cons_kinds=("ball", "ball", "half", "band", "annulus", "union2", "checker", "gridhalf", "gridhalf"))
 N = {"quick": 320, "thorough": 5000}
+# poll candidates re-snapped to the search mesh (force_poll_mesh) with a mesh ratio that is not a power of two, next to thin
+# slabs: the point that is checked must be the point that is evaluated
+FORCE_PROFILE = dict(PROFILE, cons_kinds=("band", "band", "band", "half", "checker"), cons_x0=("margin", "snap_only", "snap_only"),
+                     noise_modes=("none", "none", "declared"), p_fes=0.0, extra_budget=(30, 120), max_iter_choices=(None,),
+                     extra_opts=(("force_poll_mesh", (True,), 1.0), ("poll_mesh_multiplier", (1.5, 2.5, 3.0, 1.5), 1.0)))
+N_FORCE = {"quick": 96, "thorough": 1500}
 MARGIN = 1e-9
 INFEASIBLE_MSG = "does not satisfy non-bound constraints"
 SNAP_MSG = "does no longer satisfy non-bound constraint"
@@ -176,12 +182,14 @@ ADV_EXCLUDE = ()
 
 
 def plan(tier):
-    return [("runs", 16), ("snapgap", 8), ("advopts", 16)]
+    return [("runs", 16), ("snapgap", 8), ("advopts", 16), ("forcemesh", 16)]
 
 
 def run_part(res, part, tier, seed, shard, nshards):
     if part == "advopts":
         return runlevel.adv_sweep(res, PROFILE, tier, seed, shard, nshards, body, exclude=ADV_EXCLUDE)
+    if part == "forcemesh":
+        return runlevel.sweep(res, FORCE_PROFILE, N_FORCE[tier], seed + 311, shard, nshards, body)
     if part == "snapgap":
         return runlevel.sweep(res, None, N_GAP[tier], seed + 53, shard, nshards, body_gap, strategy=gap_cases())
     runlevel.sweep(res, PROFILE if tier == "quick" else dict(PROFILE, maxD=5, extra_budget=(5, 200)), N[tier], seed, shard, nshards, body)
